@@ -196,6 +196,32 @@ def oracle_c16(r, rng, budget, all_steps=False):
                 want = int((Decimal(str(delta)) * 100).to_integral_value())
                 if net1 - net0 != want:
                     probs.append(('withholding-not-1to1', f'withholding +{delta} moves refund-minus-owed by {(net1-net0)/100}', {'delta': delta}))
+    # (d') NC: each extra dollar of N.C. tax withheld (on any form whose state box says NC) moves the NC payments total and
+    # refund-minus-due by exactly one dollar
+    if 'nc_d-400.25' in bv:
+        pairs_nc = [('w-2', 'box_17', 'box_15'), ('1099-g', 'box_11_1', 'box_10a_1'), ('1099-g', 'box_11_2', 'box_10a_2'),
+                    ('1099-int', 'box_17_1', 'box_15_1'), ('1099-int', 'box_17_2', 'box_15_2'),
+                    ('1099-div', 'box_16_1', 'box_14_1'), ('1099-div', 'box_16_2', 'box_14_2'),
+                    ('1099-r', 'box_14_1', 'box_14_1_state'), ('1099-r', 'box_14_2', 'box_14_2_state')]
+        def nc_net(vals):
+            return cents(vals.get('nc_d-400.28', 0.0) or 0.0) - cents(vals.get('nc_d-400.26a', 0.0) or 0.0)
+        for form, amt, st in pairs_nc:
+            for n in range(count_of(inputs, form)):
+                if inputs.get(f'{form}:{n}.{st}', '').strip() != 'NC' or f'{form}:{n}.{amt}' not in inputs:
+                    continue
+                delta = rng.choice([1, 50, 333])
+                bumped = bump(inputs, f'{form}:{n}.{amt}', delta)
+                if bumped is None:
+                    continue
+                var = so.rerun_with(r, file_inputs=bumped, policy=r.get('policy'))
+                if var['exception'] is None and var['ok']:
+                    pairs += 1
+                    vv = sc.values_of(var)
+                    d25 = cents(vv.get('nc_d-400.25', 0.0)) - cents(bv.get('nc_d-400.25', 0.0))
+                    if d25 != delta * 100:
+                        probs.append((f'nc-withholding-not-1to1:{form}.{amt}', f'N.C. tax withheld +{delta} on {form}:{n} ({inputs.get(f"{form}:{n}.belongs_to", "")}) moves D-400 line 25 (payments) by {d25/100}', {'key': f'{form}:{n}.{amt}', 'delta': delta}))
+                    elif nc_net(vv) - nc_net(bv) != delta * 100 and ('nc_d-400.28' in vv or 'nc_d-400.26a' in vv) and ('nc_d-400.28' in bv or 'nc_d-400.26a' in bv):
+                        probs.append((f'nc-withholding-not-1to1:{form}.{amt}', f'N.C. tax withheld +{delta} on {form}:{n} moves overpayment-minus-due by {(nc_net(vv) - nc_net(bv))/100}', {'key': f'{form}:{n}.{amt}', 'delta': delta}))
     # (c) a larger deductible expense never raises total tax
     ded_inputs = [k for k in inputs if k.split('.')[0] == '1040_sa' and k.split('.')[1] in
                   ('medical_dental_expenses', 'charitable_cash_check', 'other_itemized', 'state_local_real_estate_taxes',
